@@ -292,7 +292,7 @@ def query_term(q: dict) -> str:
     vs = [q["sel"]] + [v for v in (cond_vars(q["cond"]) if q["cond"] else []) if v != q["sel"]]
     vars_ = "; ".join(f"({varid(v)}, {CLS[q['vars'][v]]})" for v in vs)
     cond = f"Some ({cond_term(q['cond'])})" if q["cond"] else "None"
-    return (f"{{| q_the := {'true' if q['the'] else 'false'}; q_sel := {varid(q['sel'])}; "
+    return (f"{{| q_the := {'true' if q['the'] else 'false'}; q_setof := {'true' if q.get('setof') else 'false'}; q_sel := {varid(q['sel'])}; "
             f"q_vars := [{vars_}]; q_cond := {cond} |}}")
 
 
@@ -337,6 +337,9 @@ def build_query(q: dict, lw: LiveWorld):
         raise ValueError(c)
     quant = the if q["the"] else an
     sel = vs[q["sel"]]
+    if q.get("setof"):
+        from krrood.entity_query_language.entity import set_of
+        return quant(set_of([sel], bc(q["cond"])))
     return quant(entity(sel, bc(q["cond"]))) if q["cond"] else quant(entity(sel))
 
 
@@ -349,6 +352,14 @@ def run_mem(q: dict, lw: LiveWorld) -> list:
     try:
         query = build_query(q, lw)
         r = query.evaluate()
+        if q.get("setof"):                               # rows are bindings {variable: value}: keep the selected variable's value
+            def pick(row):
+                vals = [getattr(v, "value", v) for v in row.values()]
+                return lw.key[id(vals[0])]
+            if q["the"]:
+                k = pick(r)
+                return [[0, [k]], [0, [k]]]
+            return out_rows(False, [pick(row) for row in r])
         if q["the"]:
             k = lw.key[id(r)]
             return [[0, [k]], [0, [k]]]
@@ -523,6 +534,8 @@ def gen_query(rng: core.Rng, spec: List[dict], mode: str) -> dict:
         c = cond(rng.choice([0, 1, 1, 2, 2, 3]))
     used = cond_vars(c)
     vars_ = {v: t for v, t in vars_.items() if v == sel or v in used}
+    if wild and rng.chance(0.03):
+        return {"the": False, "setof": True, "sel": sel, "vars": vars_, "cond": c}
     return {"the": rng.chance(0.15), "sel": sel, "vars": vars_, "cond": c}
 
 
@@ -557,8 +570,8 @@ def sweep_queries(full: bool) -> List[dict]:
 # classes computed in Coq (EqlToSql.classes).  OPEN: a listed open finding may explain a memory/SQL difference there.
 # The others were repaired by fix: commits (now rejections) -- a difference explained only by them is a VIOLATION.
 ALL_BITS = {1: "K_othervar", 2: "K_null", 4: "K_relop", 16: "K_strop", 32: "K_varoperand", 64: "K_noneorder",
-            128: "K_strtruth", 256: "K_eqjoin_dropped", 512: "K_valueeq", 1024: "K_or_join"}
-OPEN_BITS = {2: "K_null", 512: "K_valueeq"}
+            128: "K_strtruth", 256: "K_eqjoin_dropped", 512: "K_valueeq", 1024: "K_or_join", 2048: "K_setof"}
+OPEN_BITS = {2: "K_null", 512: "K_valueeq", 2048: "K_setof"}
 KNOWN_BITS = OPEN_BITS
 
 
@@ -567,7 +580,7 @@ def prop_agree(q: dict, mem: list, sql: list, in_f: bool, mask: int = 0) -> bool
         return True                                   # rejected with EQLTranslationError: allowed
     if sql[0] == [2]:
         return False                                  # another exception escaped the translator
-    if mask & 1024 and not in_f:
+    if mask & 1024:
         # an equality join below an or_: how often the evaluator yields an entity for a disjunction over different
         # variable sets is its own business (C01); the selected SET must agree, the(...) is not comparable
         return True if q["the"] else mem[1] == sql[1]
@@ -705,8 +718,10 @@ def run(tier: str, seed: int, replay=None) -> int:
             model = spec = None
             in_f, mask = False, 0
         elif model_ok:
-            model, spec, (fb, mask) = vals[i]
+            model, spec, (fb, mask, fj) = vals[i]
             in_f = bool(fb)
+            if fj:
+                bump("in_F07J")
         else:
             model, spec, in_f, mask = None, vals[i], False, 0
         c.update(model=model, spec=spec, in_f=in_f, mask=mask)
@@ -760,7 +775,8 @@ def run(tier: str, seed: int, replay=None) -> int:
             bump("outside_model")
         if model is not None and not unmod and model != sql:
             model_mismatch.append(c)
-        if spec is not None and spec != mem:
+        if spec is not None and (((not q["the"]) and spec[1] != mem[1]) if mask & 1024 else spec != mem):
+            # below an or_ with an equality join the Spec's multiplicities (one per assignment) are not the evaluator's: sets
             spec_mismatch.append(c)
         if agree:
             continue
